@@ -6,6 +6,7 @@ import (
 	"go/token"
 	"go/types"
 	"math/big"
+	"regexp"
 	"strings"
 	"sync"
 
@@ -46,6 +47,8 @@ type Interp struct {
 	Obligations, Discharged, Inconclusive int
 	InconclusiveMsgs []string
 	Reached  map[string]bool
+	EnumResults map[string]bool
+	AssertFilter *regexp.Regexp
 	Params   map[string]int
 	PanicsOK bool
 	Labels   []string
@@ -475,7 +478,23 @@ func (in *Interp) callFunction(fn *ssa.Function, args []Value) Value {
 			return r
 		}
 	}
-	return in.callFunctionBody(fn, args)
+	r := in.callFunctionBody(fn, args)
+	if in.EnumResults != nil && in.EnumResults[fn.Name()] {
+		// make the (small-domain) integer results concrete by forking over their values
+		switch x := r.(type) {
+		case *smt.Term:
+			if x.Sort.K == smt.KBV && !x.IsConst() {
+				r = in.Ctx.EnumerateFork(x, 400)
+			}
+		case Tuple:
+			for i, c := range x {
+				if t, ok := c.(*smt.Term); ok && t.Sort.K == smt.KBV && !t.IsConst() {
+					x[i] = in.Ctx.EnumerateFork(t, 400)
+				}
+			}
+		}
+	}
+	return r
 }
 
 func (in *Interp) callFunctionBody(fn *ssa.Function, args []Value) Value {
